@@ -63,7 +63,39 @@ func applyNetPolicies(ctx context.Context, kc kubernetes.Interface, b *netPolBui
 		}
 	}
 
-	return err
+	if err != nil || len(policies) == 0 {
+		return err
+	}
+
+	// delete policies applied for an earlier version of the manifest that are no longer generated
+	// (e.g. the policy of a service that stopped exposing ports directly)
+	current, err := kc.NetworkingV1().NetworkPolicies(b.ns()).List(ctx, metav1.ListOptions{
+		LabelSelector: akashManagedLabelName + "=true",
+	})
+	metricsutils.IncCounterVecWithLabelValues(kubeCallsCounter, "networking-policies-list", err)
+	if err != nil {
+		return err
+	}
+
+	for _, obj := range current.Items {
+		stale := true
+		for _, pol := range policies {
+			if pol.Name == obj.Name {
+				stale = false
+				break
+			}
+		}
+		if !stale {
+			continue
+		}
+		err = kc.NetworkingV1().NetworkPolicies(b.ns()).Delete(ctx, obj.Name, metav1.DeleteOptions{})
+		metricsutils.IncCounterVecWithLabelValuesFiltered(kubeCallsCounter, "networking-policies-delete", err, errors.IsNotFound)
+		if err != nil && !errors.IsNotFound(err) {
+			return err
+		}
+	}
+
+	return nil
 }
 
 // TODO: re-enable.  see #946
